@@ -100,15 +100,12 @@ def rule_order(ctx):
         ctx.ob("FileSet.save_cache.final", not late, "writes after the rename: %s" % late,
                "none - the rename is the last effect", node=m, func=f)
     # 4b. the save is performed whenever a file name is given: no other condition skips it
-    guards = []
-    returns_before = [r for r in flow.stmts if isinstance(r, ast.Return) and r.lineno < enclosing_stmt(w).lineno]
-    n_ = parent(enclosing_stmt(w))
-    while n_ is not None and not isinstance(n_, ast.FunctionDef):
-        if isinstance(n_, ast.If):
-            guards.append(norm(n_.test))
-        n_ = parent(n_)
-    ctx.ob("FileSet.save_cache.unconditional", guards == ["%s is not None" % target] and not returns_before,
-           "write guarded by %s; earlier returns: %s" % (guards, [norm(r) for r in returns_before] or "none"),
+    from ..flow import facts_at
+    fa = facts_at(enclosing_stmt(w))
+    guards = [("" if tr_ else "not ") + str(norm(e_)) for e_, tr_ in fa]
+    only_name = all((norm(e_) == "%s is not None" % target and tr_) or (norm(e_) == "%s is None" % target and not tr_) for e_, tr_ in fa) and bool(fa)
+    ctx.ob("FileSet.save_cache.unconditional", only_name,
+           "write reached under: %s" % guards,
            "`if filename is not None:` only - the cache in memory is saved whatever it contains (an 'unchanged size' short cut keeps a stale document)",
            node=enclosing_stmt(w), func=f)
     # 5. complete document: one json.dump of the list of all cached infos
@@ -121,6 +118,22 @@ def rule_order(ctx):
         if isinstance(v, ast.ListComp) and len(v.generators) == 1 and not v.generators[0].ifs:
             g = v.generators[0]
             okd = norm(g.iter) in ("self.info_cache.values()",) and norm(v.elt) == "%s.to_json_dict()" % norm(g.target)
+        elif isinstance(dumps[0].args[0], ast.Name):
+            # an accumulator: acc = []; for info in self.info_cache.values(): acc.append(info.to_json_dict())
+            from ..flow import iteration_constructs
+            acc = dumps[0].args[0].id
+            init = [d_ for d_ in flow.defs(acc, dumps[0]) if d_ != "param"]
+            loops_ = [ic for ic in iteration_constructs(f.node) if ic["kind"] == "for" and any(
+                isinstance(n_, ast.Call) and isinstance(n_.func, ast.Attribute) and n_.func.attr == "append" and norm(n_.func.value) == acc for n_ in ast.walk(ic["node"]))]
+            if len(init) == 1 and isinstance(init[0], ast.Assign) and norm(init[0].value) in ("[]", "list()") and len(loops_) == 1:
+                ic = loops_[0]
+                fact = "json.dump(%s) with %s filled by: for %s in %s: append(%s)%s" % (acc, acc, norm(ic["target"]), norm(ic["iter"]), [norm(e_) for e_ in ic["elts"]],
+                                                                                      (" if %s" % [norm(i_) for i_ in ic["ifs"]]) if ic["ifs"] else "")
+                okd = norm(ic["iter"]) == "self.info_cache.values()" and not ic["ifs"] and [norm(e_) for e_ in ic["elts"]] == ["%s.to_json_dict()" % norm(ic["target"])]
+            else:
+                raise AnalysisError("save_cache: the dumped document %s is neither a comprehension nor a recognised accumulator" % acc)
+        else:
+            raise AnalysisError("save_cache: the dumped document %s is not understood" % norm(v)[:60])
     ctx.ob("FileSet.save_cache.document", okd, fact,
            "one dump of [info.to_json_dict() for info in self.info_cache.values()] - every cached file, unfiltered",
            node=dumps[0] if dumps else f.node, func=f)
@@ -205,6 +218,12 @@ def rule_load(ctx):
     if len(stores) == 1 and isinstance(stores[0], ast.Call) and stores[0].args:
         v = flow.resolve(stores[0].args[0], at=stores[0])
         complete = isinstance(v, ast.DictComp)
+        a0 = stores[0].args[0]
+        if not complete and isinstance(a0, ast.Name):
+            # a local dictionary filled before the update: independent of the cache unless it aliases it
+            ds_ = [d_ for d_ in flow.defs(a0.id, stores[0]) if d_ != "param"]
+            complete = bool(ds_) and all(isinstance(d_, ast.Assign) and "info_cache" not in norm(d_.value) for d_ in ds_) \
+                and all(isinstance(d_.value, (ast.Dict, ast.DictComp)) or norm(d_.value) == "dict()" for d_ in ds_)
     ctx.ob("FileSet.load_cache.atomic", complete and not in_loop,
            "stores into self.info_cache: %s" % [norm(s)[:60] for s in stores],
            "a single update with the completely constructed dictionary (a failure half-way leaves the cache untouched)",
@@ -328,18 +347,22 @@ def rule_lookup(ctx):
     f = ctx.func(FILESET, "FileSet.get_info")
     body = f.body
     first = body[0] if body else None
-    ok = isinstance(first, ast.If) and "in self.info_cache" in norm(first.test) and len(first.body) == 1 \
-        and isinstance(first.body[0], ast.Return) and norm(first.body[0].value).startswith("self.info_cache[")
+
+    def not_logging(st_):
+        return not (isinstance(st_, ast.Expr) and isinstance(st_.value, ast.Call) and (dotted(st_.value.func) or "").split(".")[0] in ("logger", "logging", "warnings"))
+    fb = [s_ for s_ in first.body if not_logging(s_)] if isinstance(first, ast.If) else []
+    ok = isinstance(first, ast.If) and "in self.info_cache" in norm(first.test) and len(fb) == 1 \
+        and isinstance(fb[0], ast.Return) and norm(fb[0].value).startswith("self.info_cache[")
     key = None
     if ok:
         key = norm(first.test.left)
-        ok = norm(first.body[0].value) == "self.info_cache[%s]" % key
+        ok = norm(fb[0].value) == "self.info_cache[%s]" % key
     ctx.ob("FileSet.get_info.lookup", ok, "first statement: %s" % (norm(first)[:80] if first is not None else None),
            "cache lookup by path before any parsing; returns the cached object", node=first or f.node, func=f)
     flow = Flow(f)
     cfg = flow.cfg
     stores = [st for st in flow.stmts if isinstance(st, ast.Assign) and norm(st.targets[0]).startswith("self.info_cache[")]
-    rets = [st for st in flow.stmts if isinstance(st, ast.Return) and st is not (first.body[0] if ok else None)]
+    rets = [st for st in flow.stmts if isinstance(st, ast.Return) and st is not (fb[0] if ok else None)]
     good = False
     if len(stores) == 1 and rets:
         sn = set(cfg.nodes(stores[0]))
